@@ -321,6 +321,14 @@ def replay(case):
     base = evaluate(F.build(base_spec), O)[name]
     got = evaluate(F.build(spec), O)[name]
     # recover maps from the two specs (positional correspondence is not kept under re-ordering: use member sets)
+    if case["desc"] == "second evaluation after in-place detour":
+        Hb = F.build(base_spec)
+        b = evaluate(Hb, O)[name]
+        F.detour(Hb)
+        g = evaluate(Hb, O)[name]
+        if b[0] != g[0] or (b[0] == "ok" and not same(b[1], g[1])):
+            return [f"{name}: {str(g)[:200]} after the in-place detour, {str(b)[:200]} before"]
+        return []
     if base[0] == "raise" and got[0] == "raise":
         return []
     if base[0] != got[0]:
